@@ -17,6 +17,8 @@ EXPR_CHILDREN = [
     'lambda x, y=1: x', 'a if b else c if d else e', 'a[b:c]', "'a' 'b'", '{a for a in b}', '{a: b for a in c}',
     'a, ', '()', '[]', '{}', '*a, b', 'a.b.c', 'a()()', '-a ** b', '(-a) ** b', 'a ** -b', 'not a == b',
     'a < b < c', 'a and b or c', 'x.y[z](w)', 'é', "'é' + ü",
+    # undelimited sequences whose first and last elements are themselves delimited (the outer node only LOOKS delimited)
+    '(a), (b)', '[a], [b]', '(a, b), (c, d)', '[a], b', '(a).b, c[(d)]',
 ]
 
 # children that are multi-line (source form only legal inside brackets, or using continuation)
@@ -30,7 +32,11 @@ PATTERN_CHILDREN = [
     'a', '1', '_', 'a.b', '[a, b]', '(a, b)', 'a, b', '{1: a}', 'C(a)', 'a | b', 'a as b', '(a | b) as c', '*a', '-1',
     '1 + 2j', "'s'", 'None', '[]', 'C()', 'C(a, b=c)', '{}', '{**r}', '[a, *b]', '(a)', '*_', 'a.b.c', '[*a]', '(a,)',
     '(a | b)', '[(a as b)]',
+    # undelimited sequences whose first and last elements are themselves delimited (the outer node only LOOKS delimited)
+    '[a], [b]', '(a), (b)', '[a, *b], [c]', '[[a]], [[b]]', '[a], b', 'a, [b]', '(a, b), (c, d)',
 ]
+
+PATTERN_CHILDREN_ML = ['(c |\n d)', '[a,\n b]', 'C(a,\n  b)', '{1: a,\n 2: b}']
 
 # ---------------------------------------------------------------------------------------------------------------------
 # parent programs: every expression / pattern / expression-bearing statement kind; slots are derived mechanically
@@ -48,7 +54,7 @@ PARENTS_EXPR = (
        '{u: v for w in z}', '(u for v in w)', '[u for v in w for p in q]', 'await u', '(yield u)', '(yield from u)',
        '(u := v)', '*u, v', '[*u]', "f'{u}'", "f'{u!r}'", "f'{u:>{v}}'", 'u ** v ** w', 'u - v - w', '(u, v)[w]', 'u[v][w]',
        'u.a.b', '-u ** v', 'not u in v', 'u if v else w if p else q', 'f(u for v in w)', 'f(u)(v)',
-       'u + v * w', '(u + v) * w', 'u or v and w', '[u async for v in w]']
+       'u + v * w', '(u + v) * w', 'u or v and w', '[u async for v in w]', '(u), (v)', '[u], [v]']
 )
 
 PARENTS_STMT = [
@@ -77,6 +83,7 @@ PARENTS_PATTERN = [
     'match s:\n case (u as v): pass', 'match s:\n case u as v: pass', 'match s:\n case [u] | v: pass',
     'match s:\n case (u | v) as w: pass', 'match s:\n case [[u], v]: pass', 'match s:\n case a.b(u): pass', 'match s:\n case -1: pass', 'match s:\n case 1 + 2j: pass',
     'match s:\n case [u, v] if g: pass', 'match s:\n case {1: [u, v]}: pass',
+    'match s:\n case [u], [v]: pass', 'match s:\n case (u), (v): pass', 'match s:\n case [u], v: pass',
 ]
 
 for _p in PARENTS_EXPR + PARENTS_STMT + PARENTS_PATTERN:
@@ -94,7 +101,7 @@ def parse_pattern(src: str):
         return p
 
 
-for _c in PATTERN_CHILDREN:
+for _c in PATTERN_CHILDREN + PATTERN_CHILDREN_ML:
     parse_pattern(_c)
 
 
